@@ -307,7 +307,7 @@ def run(payload):
         return [run_merge(c) for c in payload["cases"]]
     if op == "exec":
         import c15_exec
-        return [c15_exec.run_case(c) for c in payload["cases"]]
+        return [c15_exec.run_case(c, enc, dec) for c in payload["cases"]]
     raise SystemExit(f"unknown op {op}")
 
 
